@@ -123,26 +123,6 @@ theorem default_flags (c : ChOutF) (h : chFlags c = none) : (chFlags c).getD [0,
 
 /-! ### the package mirrors the forged elements, position by position and channel by channel -/
 
-theorem transpose_getElem? {α : Type} (nCh : ℕ) (rows : List (List α)) (hall : ∀ r ∈ rows, r.length = nCh)
-    (i : ℕ) (hi : i < nCh) (p : ℕ) (hp : p < rows.length) :
-    ((transpose nCh rows)[i]?).bind (·[p]?) = (rows[p]?).bind (·[i]?) := by
-  unfold transpose
-  simp only [List.getElem?_map, List.getElem?_range hi, Option.map_some, Option.bind_some]
-  have hfm : ∀ (dflt : α) (l : List (List α)), (∀ r ∈ l, r.length = nCh) →
-      l.filterMap (fun r => r[i]?) = l.map (fun r => (r[i]?).getD dflt) := by
-    intro dflt l
-    induction l with
-    | nil => intro _; rfl
-    | cons r rs ih =>
-      intro hl
-      have hr : i < r.length := by rw [hl r (by simp)]; exact hi
-      simp only [List.filterMap_cons, List.getElem?_eq_getElem hr, List.map_cons, Option.getD_some]
-      rw [ih (fun r' hr' => hl r' (by simp [hr']))]
-  have hr0 : i < (rows[p]).length := by rw [hall _ (List.getElem_mem hp)]; exact hi
-  rw [hfm (rows[p][i]) rows hall]
-  have hr : i < (rows[p]).length := hr0
-  simp [List.getElem?_eq_getElem hp, List.getElem?_eq_getElem hr]
-
 /-- **what `outputForSEQXFile` delivers**: with `P` the per-position forged elements of
     `_prepareForOutputting` (equal to `forge(True, True)` by C10's `output_path_equals_forge`) and
     `chans` the channels of element 1, the package holds for channel `i` and position `p` exactly
@@ -230,7 +210,7 @@ theorem seqx_content (s : Sequence) (d : Deferred SEQXPkg) (pkg : SEQXPkg)
                           · simp only [Except.ok.injEq] at ek
                             rw [← ek]
                             exact mapM_ok_length _ _ _ hrowk
-                    have := transpose_getElem? chans.length (rows.map (·.1)) hall i hi p (by simpa using hr)
+                    have := C14.transpose_getElem? chans.length (rows.map (·.1)) hall i hi p (by simpa using hr)
                     simp only [seqxPackage]
                     rw [this]
                     simp [List.getElem?_eq_getElem hr, hrowp, List.getElem?_eq_getElem hi']
